@@ -199,6 +199,55 @@ def size_paths(rep, tier, rng):
                           what='right-hand side on the %dx%d grid (%s implementation) differs from the sample means' % (m - 1, m - 1, 'large' if (m - 1) ** 2 >= 200 else 'small'))
 
 
+def uniform_rhs_paths(rep, tier, rng):
+    """right-hand side of the level-vector based (uniform grid) variant: component grids below and above the 200-point threshold use different
+    implementations; both are compared with the sample means of the hats computed from the hat definition, on data that mixes samples exactly on
+    grid lines (dyadic coordinates, also on lines of the finest grid) with generic samples"""
+    from sparseSpACE.GridOperation import DensityEstimation
+    from sparseSpACE.Grid import TrapezoidalGrid
+    D = 2
+    lvs = [(2, 2), (3, 3), (4, 4), (5, 3), (3, 5)] + ([(4, 5), (6, 2), (1, 8)] if tier == 'thorough' else [])
+    for lv in lvs:
+        for kind in ('lattice', 'mixed'):
+            for with_classes in (False, True):
+                r = np.random.RandomState(rng.randint(0, 10 ** 6))
+                n = 40
+                if kind == 'lattice':
+                    data = r.randint(1, 32, (n, 2)) / 32.0
+                else:
+                    data = r.rand(n, 2) * 0.96 + 0.02
+                    data[: n // 3] = r.randint(1, 32, (n // 3, 2)) / 32.0
+                    data[n // 3: n // 2, 0] = r.randint(1, 16, n // 2 - n // 3) / 16.0      # one coordinate on a grid line, the other generic
+                y = np.where(r.rand(n) < 0.5, 1.0, -1.0)
+                try:
+                    grid = TrapezoidalGrid(a=np.zeros(D), b=np.ones(D), boundary=False)
+                    op = DensityEstimation(np.array(data), D, grid=grid, classes=np.array(y) if with_classes else None, pre_scaled_data=True)
+                    with impl.quiet(), impl.watchdog(300):
+                        grid.setCurrentArea(np.zeros(D), np.ones(D), list(lv))
+                        b = np.asarray(op.calculate_B(np.array(data), list(lv)), dtype=float)
+                except impl.Timeout:
+                    rep.exclude('uniform right-hand side %s: timeout' % (lv,))
+                    continue
+                except Exception as ex:
+                    rep.violation('C17_NoException', {'stage': 'uniform-rhs', 'exception': type(ex).__name__}, {'levelvec': lv, 'exception': repr(ex)}, what='calculate_B(%s) raised %r' % (lv, ex))
+                    continue
+                exp = []
+                sgn = y if with_classes else np.ones(n)
+                for i in range(1, 2 ** lv[0]):
+                    hx = np.clip(1 - np.abs(data[:, 0] * 2 ** lv[0] - i), 0, None)
+                    for j in range(1, 2 ** lv[1]):
+                        exp.append(float(np.sum(hx * np.clip(1 - np.abs(data[:, 1] * 2 ** lv[1] - j), 0, None) * sgn) / n))
+                exp = np.array(exp)
+                large = len(exp) >= 200
+                ok = b.shape == exp.shape and np.allclose(b, exp, rtol=1e-10, atol=1e-13)
+                rep.count(1, key=('uniform-rhs', lv, kind, with_classes))
+                rep.residual('uniform_rhs_%s_grid' % ('large' if large else 'small'), ok)
+                if not ok:
+                    rep.violation('C17_SizePathsAgree', {'stage': 'size-paths', 'operation': 'uniform-rhs', 'large': large},
+                                  {'levelvec': lv, 'data': kind, 'classes': with_classes, 'max_difference': float(np.max(np.abs(b - exp))) if b.shape == exp.shape else None},
+                                  what='right-hand side of the level-%s grid (%d points, %s implementation, %s data) differs from the sample means of the hats' % (lv, len(exp), 'large' if large else 'small', kind))
+
+
 def run(tier, seed):
     rep = Report(PROP, tier, seed, 'model_checking')
     rng = random.Random(seed)
@@ -212,6 +261,7 @@ def run(tier, seed):
     key_table(rep, states)
     rep.cov['spec_states_tested_on_impl'] = len(states)
     size_paths(rep, tier, rng)
+    uniform_rhs_paths(rep, tier, rng)
     two_run(rep, tier, rng)
     rep.cov['rule'] = ('(A) every pair of hats of every grid state of HatSystems.tla: library cache key vs exact entry, global functional check; (B) reuse on/off '
                        'adaptive runs per (data set, lambda, lumping, classes, budget); (C) forced small/large implementations on the same grids; distinct by case')
